@@ -565,14 +565,73 @@ def ground_fuzz_selector_decoding():
     return [(f"abi_decode_FuzzSelector_array returns, for every contract, all selectors of all its entries in order, on all {n} arrays of up to 3 entries over 2 contracts", not bad, f"first disagreement: {str(bad[:1])[:300]}")]
 
 
+def target_call_path_cases():
+    """run_target_function: the path handed to the engine for one target call holds every constraint of the input state,
+    the sender restriction and the length candidates of this call's dynamic arguments (so that bytes / string / T[]
+    arguments are explored over their configured lengths, not left symbolic)"""
+    from contracts.common import config, replay_script
+    from halmos.calldata import DynamicParam
+
+    out = []
+    for with_sender_cond in (False, True):
+
+        def harness(interp, with_sender_cond=with_sender_cond):
+            ctx = interp.ctx
+            seen = []
+
+            class Engine:
+                def __init__(self):
+                    self.logs = hs.HalmosLogs()
+
+                def run_message(self, ex, message, path):
+                    seen.append((ex, message, path))
+                    return []
+
+            interp.contracts["halmos.sevm:SEVM"] = lambda i, a, k: Engine()
+            size = z3.BitVec("p_data_length_1", 256)
+            dyn = [DynamicParam(name="data", size_choices=[0, 32, 65], size_symbol=size, typ=None)]
+            interp.contracts["halmos.calldata:mk_calldata"] = lambda i, a, k: ("<calldata>", dyn)
+            interp.contracts["halmos.__main__:mk_calldata"] = lambda i, a, k: ("<calldata>", dyn)
+            interp.externals[hm.mk_calldata] = lambda i, *a, **k: ("<calldata>", dyn)
+            interp.contracts["halmos.sevm:Message"] = lambda i, a, k: NS(**k)
+            interp.externals[hm.reset] = lambda i, *a, **k: None
+            parent = hs.Path(hm.mk_solver(config()))
+            a, b = z3.BitVec("stored", 256), z3.BitVec("other", 256)
+            parent.append(z3.ULT(a, 10))
+            parent.append(b == 3)
+            earlier = z3.BitVec("p_earlier_length", 256)
+            parent.concretization.candidates[earlier] = [1, 2]
+            parent.sliced = {0}
+            ex = NS(path=parent, new_symbol_id=lambda: 1)
+            sender = z3.BitVec("msg_sender", 160)
+            cond = (sender != 0) if with_sender_cond else None
+            g = interp.call(hm.run_target_function, [config(), ex, "<addr>", {}, NS(sig="store(bytes)", name="store"), "<origin>", sender, "<value>"], {"msg_sender_cond": cond})
+            list(g)
+            ok = len(seen) == 1 and seen[0][0] is ex
+            ctx.oblige("the call is executed once, from the input state", z3.BoolVal(ok))
+            if not ok:
+                return
+            path = seen[0][2]
+            conds = list(path.conditions)
+            ctx.oblige("the call's path starts from every constraint of the input state (in order) and is a path of its own", z3.BoolVal(path is not parent and [str(c) for c in conds[:2]] == [str(c) for c in parent.conditions]))
+            ctx.oblige("the length candidates of this call's dynamic arguments are registered on the path the engine runs", z3.BoolVal(any(z3.eq(k, size) and list(v) == [0, 32, 65] for k, v in path.concretization.candidates.items())), info={"registered": str({str(k): v for k, v in path.concretization.candidates.items()})[:200]})
+            if with_sender_cond:
+                ctx.oblige("the sender restriction is a constraint of the call's path", z3.BoolVal(any(z3.eq(c, z3.simplify(cond)) for c in conds)))
+            ctx.oblige("the input state's own path is not modified", z3.BoolVal(len(parent.conditions) == 2 and not any(z3.eq(k, size) for k in parent.concretization.candidates)))
+
+        out.append(Case(f"{PROP}/__main__.run_target_function#path", "with a sender restriction" if with_sender_cond else "without a sender restriction", harness, replay=replay_script("dynamic_args_in_invariant_calls.py", "a target function store(bytes) that breaks the invariant"), sources=("halmos.__main__:run_target_function", "halmos.sevm:Path.extend_path", "halmos.sevm:Path.process_dyn_params")))
+    return out
+
+
 def build_cases(tier="quick"):
     from contracts import c20
 
     ref = [Case(f"{PROP}/__main__.run_message", c.case, c.harness, sources=c.sources) for c in c20.main_cases() if c.unit.endswith("__main__.run_message")]
     from contracts import c11
 
+    ref += [Case(f"{PROP}/sevm.SEVM.run_message#own-block", c.case, c.harness, replay=c.replay, sources=c.sources) for c in c20.fork_cases() if c.unit.endswith("sevm.SEVM.run_message")]
     ref += [Case(f"{PROP}/sevm.Path.extend_path#successor-owns-its-conditions", c.case, c.harness, replay=c.replay, sources=c.sources) for c in c11.path_growth_cases() if "extend_path" in c.unit]
-    return sender_cases() + frontier_cases() + digest_cases() + slice_cases() + ref
+    return sender_cases() + frontier_cases() + digest_cases() + slice_cases() + target_call_path_cases() + ref
 
 
 def grounds():
